@@ -10,6 +10,7 @@ import subprocess
 import sys
 import types
 
+import numpy as np
 from hypothesis import strategies as st
 
 from vf.core import Sub
@@ -229,10 +230,40 @@ def _ctor(data, kind):
     return getattr(data, kind)
 
 
+_SUBCLASSES = {}
+
+
+def _define_user_subclasses(data):
+    """A user of the library may subclass the geometry classes (a box with an extra property, an interval with a stricter rule of
+    its own).  That must not change what the nine classes and geometry_validate do: the subclasses are defined once per process."""
+    if _SUBCLASSES:
+        return
+    import pydantic
+
+    class LabelledBox(data.BoundingBox):
+        @property
+        def label(self):
+            return "box"
+
+    class ShortCall(data.TimeInterval):
+        @pydantic.field_validator("coordinates")
+        @classmethod
+        def _short(cls, v):
+            if v[1] - v[0] > 1e-3:
+                raise ValueError("a short call lasts at most a millisecond")
+            return v
+
+    class TaggedPoint(data.Point):
+        pass
+
+    _SUBCLASSES.update({"LabelledBox": LabelledBox, "ShortCall": ShortCall, "TaggedPoint": TaggedPoint})
+
+
 def check(spec, ctx):
     import pydantic
     from soundevent import data
 
+    _define_user_subclasses(data)
     kind, c = spec["type"], spec["coordinates"]
     exp = ref_valid(kind, c)
     on_boundary = False
@@ -303,6 +334,43 @@ def check(spec, ctx):
         except Exception as e:
             ctx.fail(f"{name} raised {type(e).__name__}: {e} (must be a validation error or succeed)", spec, repr(e), "ValueError", kind="wrong_exception")
             results[name] = False
+
+    # 2c. the same numbers in other representations (tuples, numpy scalars, numpy arrays, Decimal, Fraction - all value-preserving):
+    # the verdict and the resulting geometry are the same.  Which representation is tried follows from the spec (deterministic).
+    import decimal
+    import fractions
+
+    def conv(x, f):
+        if isinstance(x, (list, tuple)):
+            return [conv(y, f) for y in x]
+        return f(x) if is_num(x) else x
+
+    def tup(x):
+        return tuple(tup(y) for y in x) if isinstance(x, (list, tuple)) else x
+
+    reps = [("tuples", tup), ("numpy.float64", lambda z: conv(z, np.float64)), ("Decimal", lambda z: conv(z, lambda v: decimal.Decimal(v))), ("Fraction", lambda z: conv(z, lambda v: fractions.Fraction(v)))]
+    if exp:  # an array form only for valid structures (numpy turns a one-element array into a scalar, blurring the nesting rules)
+        try:
+            arr = np.array(c, dtype=float)
+            reps.append(("numpy.ndarray", lambda z: arr))
+        except ValueError:
+            pass  # ragged (lines / rings of different lengths): no array form
+    rname, rfun = reps[(len(json.dumps(c)) + len(spec["muts"])) % len(reps)]
+    if all((not isinstance(v, float)) or math.isfinite(v) for v in ([_get(c, q) for q in _leaf_paths(c)] if isinstance(c, list) else [c])):
+        cc = rfun(copy.deepcopy(c))
+        for name, build in (
+            (f"ctor[{rname}]", lambda: _ctor(data, kind)(coordinates=cc)),
+            (f"dict[{rname}]", lambda: data.geometry_validate({"type": kind, "coordinates": cc}, mode="dict")),
+            (f"attributes[{rname}]", lambda: data.geometry_validate(types.SimpleNamespace(type=kind, coordinates=cc), mode="attributes")),
+        ):
+            try:
+                objs[name] = build()
+                results[name] = True
+            except ValueError:
+                results[name] = False
+            except Exception as e:
+                ctx.fail(f"{name} raised {type(e).__name__}: {str(e)[:150]} (must be a validation error or succeed)", spec, repr(e)[:200], "ValueError", kind="wrong_exception")
+                results[name] = False
 
     # 5. through a model field typed with the Geometry union (a sound event built from plain data)
     rec = _recording(data)
